@@ -346,6 +346,42 @@ func (st *e2State) analyse(fn *Func) {
 		}
 		return true
 	})
+	propagate := func() {
+		// 1c. x = append(x, y...) / x = y with y tainted → x tainted (copy of order)
+		for round := 0; round < 3; round++ {
+			ast.Inspect(fn.Body, func(n ast.Node) bool {
+				if lit, ok := n.(*ast.FuncLit); ok && lit != fn.Lit {
+					return false
+				}
+				as, ok := n.(*ast.AssignStmt)
+				if !ok || len(as.Lhs) != len(as.Rhs) {
+					return true
+				}
+				for i, rhs := range as.Rhs {
+					lp := pathOf(info, as.Lhs[i])
+					if lp == "" || tainted[lp] {
+						continue
+					}
+					rhs = ast.Unparen(rhs)
+					if call, ok := rhs.(*ast.CallExpr); ok && isBuiltinCall(info, call, "append") {
+						for _, arg := range call.Args[1:] {
+							ap := taintedPath(tainted, pathOf(info, arg))
+							if ap != "" && !st.sortedBefore(fn, ap, srcs, as) {
+								addSrc(lp, as, "appended from map-ordered "+exprStr(arg), info.TypeOf(as.Lhs[i]))
+							}
+						}
+						continue
+					}
+					rp := taintedPath(tainted, pathOf(info, rhs))
+					if rp != "" && !st.sortedBefore(fn, rp, srcs, as) {
+						addSrc(lp, as, "assigned from map-ordered "+exprStr(rhs), info.TypeOf(as.Lhs[i]))
+					}
+				}
+				return true
+			})
+		}
+	}
+	propagate()
 	// 1b. loops over maps / tainted slices: iterate to a local fixed point since a
 	// tainted slice may be ranged over later in the same function
 	type loopInfo struct {
@@ -394,39 +430,7 @@ func (st *e2State) analyse(fn *Func) {
 			break
 		}
 	}
-	// 1c. x = append(x, y...) / x = y with y tainted → x tainted (copy of order)
-	for round := 0; round < 3; round++ {
-		ast.Inspect(fn.Body, func(n ast.Node) bool {
-			if lit, ok := n.(*ast.FuncLit); ok && lit != fn.Lit {
-				return false
-			}
-			as, ok := n.(*ast.AssignStmt)
-			if !ok || len(as.Lhs) != len(as.Rhs) {
-				return true
-			}
-			for i, rhs := range as.Rhs {
-				lp := pathOf(info, as.Lhs[i])
-				if lp == "" || tainted[lp] {
-					continue
-				}
-				rhs = ast.Unparen(rhs)
-				if call, ok := rhs.(*ast.CallExpr); ok && isBuiltinCall(info, call, "append") {
-					for _, arg := range call.Args[1:] {
-						ap := taintedPath(tainted, pathOf(info, arg))
-						if ap != "" && !st.sortedBefore(fn, ap, srcs, as) {
-							addSrc(lp, as, "appended from map-ordered "+exprStr(arg), info.TypeOf(as.Lhs[i]))
-						}
-					}
-					continue
-				}
-				rp := taintedPath(tainted, pathOf(info, rhs))
-				if rp != "" && !st.sortedBefore(fn, rp, srcs, as) {
-					addSrc(lp, as, "assigned from map-ordered "+exprStr(rhs), info.TypeOf(as.Lhs[i]))
-				}
-			}
-			return true
-		})
-	}
+	propagate()
 	if len(srcs) == 0 {
 		return
 	}
@@ -928,6 +932,12 @@ func (st *e2State) classifyLoop(fn *Func, rs *ast.RangeStmt, why string, addSrc 
 	}
 	construct := "range " + exprStr(rs.X)
 	appends, mapStores, issues := 0, 0, 0
+	type latch struct {
+		o  types.Object
+		as *ast.AssignStmt
+		id *ast.Ident
+	}
+	var latches []latch
 	report := func(n ast.Node, kind, detail string) {
 		issues++
 		if !st.final {
@@ -979,6 +989,8 @@ func (st *e2State) classifyLoop(fn *Func, rs *ast.RangeStmt, why string, addSrc 
 						mapStores++
 						if !loopDep(ix.Index) {
 							report(x, "map store under loop-independent key", "store into "+exprStr(ix.X)+" under a key that does not depend on the iteration: the surviving value depends on iteration order")
+						} else if rhs != nil && loopDep(rhs) && !declaredInside(baseObj(info, ix.X)) && !st.keyDistinctPerIteration(fn, rs, ix.Index, loopVars) {
+							report(x, "map store under a derived key", "store of an iteration-dependent value into "+exprStr(ix.X)+" under the key "+exprStr(ix.Index)+", which two iterations may share: the surviving value depends on iteration order")
 						}
 						continue
 					}
@@ -1004,6 +1016,9 @@ func (st *e2State) classifyLoop(fn *Func, rs *ast.RangeStmt, why string, addSrc 
 				}
 				if rhs != nil && !loopDep(rhs) {
 					// same value whichever iteration executes it (e.g. found = true, ctx = WithX(ctx))
+					if lid, isID := l.(*ast.Ident); isID && x.Tok == token.ASSIGN && lo != nil && !mentionsObj(info, rhs, lo) {
+						latches = append(latches, latch{lo, x, lid})
+					}
 					continue
 				}
 				if be, ok := ast.Unparen(rhs).(*ast.BinaryExpr); ok && rhs != nil && (be.Op == token.LOR || be.Op == token.LAND) &&
@@ -1080,6 +1095,56 @@ func (st *e2State) classifyLoop(fn *Func, rs *ast.RangeStmt, why string, addSrc 
 		return true
 	}
 	ast.Inspect(rs.Body, inspect)
+	// sticky state: a variable from outside the loop that some iterations set (to a value that
+	// is the same whoever sets it) and that the body also reads before setting it — whether an
+	// element sees it set depends on which elements came before
+	doneLatch := map[types.Object]bool{}
+	for _, la := range latches {
+		if doneLatch[la.o] {
+			continue
+		}
+		doneLatch[la.o] = true
+		var asns []ast.Node
+		lhs := map[*ast.Ident]bool{}
+		for _, lb := range latches {
+			if lb.o == la.o {
+				asns = append(asns, lb.as)
+				lhs[lb.id] = true
+			}
+		}
+		// set on every iteration before any read: nothing is carried
+		var stale *ast.Ident
+		ast.Inspect(rs.Body, func(z ast.Node) bool {
+			if _, isLit := z.(*ast.FuncLit); isLit {
+				return false
+			}
+			id, ok := z.(*ast.Ident)
+			if !ok || info.ObjectOf(id) != la.o || lhs[id] || stale != nil {
+				return true
+			}
+			// the read only decides whether to leave the loop / skip the element's own latch
+			// assignment (if found { break }): judged as an exit, not here
+			if ifs, isIf := p.Parent(id).(*ast.IfStmt); isIf && ast.Unparen(ifs.Cond) == ast.Expr(id) && onlyLeaves(ifs.Body) {
+				return true
+			}
+			if ue, isNot := p.Parent(id).(*ast.UnaryExpr); isNot && ue.Op == token.NOT {
+				if ifs, isIf := p.Parent(ue).(*ast.IfStmt); isIf && ast.Unparen(ifs.Cond) == ast.Expr(ue) {
+					// if !found { found = true; … }: first-iteration work
+					return true
+				}
+			}
+			for _, a := range asns {
+				if fn.Dominates(a, id) {
+					return true
+				}
+			}
+			stale = id
+			return true
+		})
+		if stale != nil {
+			report(stale, "sticky "+la.o.Name(), la.o.Name()+" is declared outside the loop, set by some iterations and read by the body at "+p.Pos(stale)+" before this iteration has set it: what an element sees depends on which elements came before it")
+		}
+	}
 	if st.final {
 		cls := "M (map-to-map / commutative fold)"
 		if appends > 0 {
@@ -1448,4 +1513,103 @@ func sliceOfMapKeysOrderedByElement(fn *Func, call *ast.CallExpr, path string) b
 		return true
 	})
 	return good && nAppends == 1
+}
+
+// keyDistinctPerIteration: the map key written in the body of the order-nondeterministic loop
+// rs cannot be the same in two iterations — it is an injective function of the range key (of a
+// map, or the index of a slice): the key itself, converted, bound to a local first, wrapped in
+// composite literals next to loop-independent values, or encoded by a canonical encoder.
+func (st *e2State) keyDistinctPerIteration(fn *Func, rs *ast.RangeStmt, key ast.Expr, loopVars map[types.Object]bool) bool {
+	ok, has := st.injectiveInRangeKey(fn, rs, key, loopVars, 0)
+	return ok && has
+}
+
+var injectiveEncoders = map[string]bool{
+	"github.com/hashicorp/hcl-lang/schema.NewSchemaKey": true,
+	"strconv.Itoa": true, "strconv.Quote": true,
+}
+
+func (st *e2State) injectiveInRangeKey(fn *Func, rs *ast.RangeStmt, e ast.Expr, loopVars map[types.Object]bool, depth int) (ok, hasKey bool) {
+	info := fn.Info()
+	e = ast.Unparen(e)
+	if depth > 6 {
+		return false, false
+	}
+	if tv, isT := info.Types[e]; isT && tv.Value != nil {
+		return true, false
+	}
+	switch x := e.(type) {
+	case *ast.BasicLit:
+		return true, false
+	case *ast.Ident:
+		o := info.ObjectOf(x)
+		if kid, isID := rs.Key.(*ast.Ident); isID && rs.Key != nil && info.ObjectOf(kid) == o {
+			return true, true
+		}
+		if loopVars[o] {
+			return false, false
+		}
+		if o != nil && o.Pos() >= rs.Body.Pos() && o.Pos() <= rs.Body.End() {
+			if def := fn.SingleDef(o); def != nil {
+				return st.injectiveInRangeKey(fn, rs, def, loopVars, depth+1)
+			}
+			return false, false
+		}
+		if _, isVar := o.(*types.Var); isVar && len(fn.Assignments(o)) > 1 {
+			return false, false
+		}
+		return true, false // loop-independent
+	case *ast.CompositeLit:
+		has := false
+		for _, el := range x.Elts {
+			if kv, isKV := el.(*ast.KeyValueExpr); isKV {
+				el = kv.Value
+			}
+			o, h := st.injectiveInRangeKey(fn, rs, el, loopVars, depth+1)
+			if !o {
+				return false, false
+			}
+			has = has || h
+		}
+		return true, has
+	case *ast.CallExpr:
+		if tv, isT := info.Types[x.Fun]; isT && tv.IsType() && len(x.Args) == 1 {
+			return st.injectiveInRangeKey(fn, rs, x.Args[0], loopVars, depth+1)
+		}
+		if injectiveEncoders[calleeFull(info, x)] {
+			has := false
+			for _, a := range x.Args {
+				o, h := st.injectiveInRangeKey(fn, rs, a, loopVars, depth+1)
+				if !o {
+					return false, false
+				}
+				has = has || h
+			}
+			return true, has
+		}
+	}
+	return false, false
+}
+
+func mentionsObj(info *types.Info, e ast.Expr, o types.Object) bool {
+	hit := false
+	ast.Inspect(e, func(n ast.Node) bool {
+		if id, ok := n.(*ast.Ident); ok && info.ObjectOf(id) == o {
+			hit = true
+		}
+		return true
+	})
+	return hit
+}
+
+// onlyLeaves: the block consists of a break / continue / return (possibly after plain calls)
+func onlyLeaves(b *ast.BlockStmt) bool {
+	if b == nil || len(b.List) == 0 {
+		return false
+	}
+	switch b.List[len(b.List)-1].(type) {
+	case *ast.BranchStmt, *ast.ReturnStmt:
+		return true
+	}
+	return false
 }
